@@ -102,6 +102,9 @@ pub struct E1Unit {
     pub clone_mode: bool,
     /// explicit input list (instead of all strings over `alphabet` up to `max_len`)
     pub explicit_inputs: Option<Vec<Vec<Tok>>>,
+    /// run the statically typed (generated) parsers of this set instead of the boxed interpreter;
+    /// `grammars` is then filled from the registered static table
+    pub static_set: Option<String>,
 }
 
 #[derive(Default, Clone, Debug)]
@@ -183,6 +186,23 @@ pub fn register_runners(v: Vec<E1Runner>) {
     let _ = RUNNERS.set(v);
 }
 
+/// (set name, grammar text, generated case function) — registered by the binary from the cvh-static-* crates
+pub type StaticCase = (&'static str, &'static str, crate::stat::CaseFn);
+static STATIC: std::sync::OnceLock<Vec<StaticCase>> = std::sync::OnceLock::new();
+pub fn register_static(v: Vec<StaticCase>) {
+    let _ = STATIC.set(v);
+}
+pub fn static_cases(set: &str) -> Vec<(G, crate::stat::CaseFn)> {
+    STATIC
+        .get()
+        .map(|v| v.iter().filter(|(s, _, _)| *s == set).map(|(_, g, f)| (cvm::ast::parse_g(g).unwrap_or_else(|e| panic!("static table: {g}: {e}")), *f)).collect())
+        .unwrap_or_default()
+}
+
+fn inputs_filter_single_grammar(u: &E1Unit) -> bool {
+    u.name == "replay" && u.grammars.len() == 1
+}
+
 pub fn run_e1_unit(u: &E1Unit, cx: &ShardCtx) -> UnitResult {
     run_e1_unit_on(u, cx, None)
 }
@@ -194,7 +214,20 @@ pub fn run_e1_unit_on(u: &E1Unit, cx: &ShardCtx, inputs: Option<Vec<Vec<Tok>>>) 
     let prog = |gi: usize| (cx.progress)(gi);
     // skipped grammars are removed by replacing them with a trivially fine grammar is wrong —
     // instead the job iterates by stride and we filter by index here
-    let grammars: Vec<G> = u.grammars.clone();
+    let mut grammars: Vec<G> = u.grammars.clone();
+    let mut fns: Vec<crate::stat::CaseFn> = vec![];
+    if let Some(set) = &u.static_set {
+        let cs = static_cases(set);
+        grammars = cs.iter().map(|(g, _)| g.clone()).collect();
+        fns = cs.iter().map(|(_, f)| *f).collect();
+        if inputs_filter_single_grammar(u) {
+            // replay: keep only the requested grammar
+            let want = u.grammars[0].to_string();
+            let keep: Vec<usize> = (0..grammars.len()).filter(|i| grammars[*i].to_string() == want).collect();
+            grammars = keep.iter().map(|i| grammars[*i].clone()).collect();
+            fns = keep.iter().map(|i| fns[*i]).collect();
+        }
+    }
     let job = Job {
         grammars: &grammars,
         inputs: &inputs,
@@ -211,6 +244,7 @@ pub fn run_e1_unit_on(u: &E1Unit, cx: &ShardCtx, inputs: Option<Vec<Vec<Tok>>>) 
         lazy: u.lazy,
         pair_mode: u.pair_mode,
         clone_mode: u.clone_mode,
+        static_cases: if u.static_set.is_some() { Some(&fns) } else { None },
     };
     let handled = RUNNERS.get().map(|rs| rs.iter().any(|r| r(u.kind, u.cfg, &job, &mut acc))).unwrap_or(false);
     if !handled {
@@ -244,7 +278,7 @@ pub fn run_e1_unit_on(u: &E1Unit, cx: &ShardCtx, inputs: Option<Vec<Vec<Tok>>>) 
             "E1{} {}: {} grammars x {} inputs (alphabet {:?}, length <= {}) on {} with {}",
             match u.pair_mode { Some(m) => format!(" differential pairs ({})", e1::pair_mode_name(Some(m))), None => String::new() },
             u.class_desc,
-            if u.pair_mode.is_some() { u.grammars.len() / 2 } else { u.grammars.len() },
+            if u.pair_mode.is_some() { grammars.len() / 2 } else { grammars.len() },
             inputs.len(),
             u.alphabet.iter().collect::<String>(),
             u.max_len,
@@ -263,7 +297,7 @@ pub fn run_e1_unit_on(u: &E1Unit, cx: &ShardCtx, inputs: Option<Vec<Vec<Tok>>>) 
                 json!({
                     "engine": "e1", "unit": u.name, "categories": e1::cat_names(m.mask), "grammar": m.grammar, "input": m.input,
                     "kind": m.kind, "cfg": m.cfg, "probes": [u.probes.span, u.probes.state, u.probes.ctx],
-                    "alarm": u.alarm, "skip_not_content": u.skip_not_content, "lazy": u.lazy, "pair_mode": e1::pair_mode_name(u.pair_mode), "clone_mode": u.clone_mode,
+                    "alarm": u.alarm, "skip_not_content": u.skip_not_content, "lazy": u.lazy, "pair_mode": e1::pair_mode_name(u.pair_mode), "clone_mode": u.clone_mode, "static_set": u.static_set,
                     "detail": m.detail, "explained_by": m.explained_by,
                 })
             })
